@@ -601,6 +601,106 @@ func corrProbe(r *Rng, which string) (line, got string) {
 			rs[i] = fmt.Sprintf("f=%s b=%s o=%s p=%s", o(rc.Front), o(rc.Back), o(rc.Owner), showPath(rc.Pts))
 		}
 		return sb.String(), fmt.Sprintf("ok=%s | e %s | %s", bs(succ), strings.Join(es, " "), strings.Join(rs, " | "))
+	case "aelptr":
+		// the pointer surgery on the active-edge list: 2-7 unlinked synthetic edges, 1-16 operations; the
+		// list is tracked so that most operations are legal (insert an edge that is not in the list after
+		// one that is, delete an edge of the list, swap an edge with its right neighbour); a tenth name
+		// arbitrary edges (the pointers then hold garbage, the same garbage in the code and in the model);
+		// compared: c.actives and both pointers of every edge, without walking any list
+		n := r.Range(2, 7)
+		var list []int
+		in := func(e int) bool {
+			for _, x := range list {
+				if x == e {
+					return true
+				}
+			}
+			return false
+		}
+		var ops [][]int
+		garbage := false
+		for k, m := 0, r.Range(1, 16); k < m; k++ {
+			if r.Chance(0.1) {
+				garbage = true
+			}
+			if garbage {
+				switch r.Intn(5) {
+				case 0, 1:
+					ops = append(ops, []int{r.Intn(2), r.Intn(n)})
+				case 2:
+					ops = append(ops, []int{2, r.Intn(n), r.Intn(n)})
+				case 3:
+					ops = append(ops, []int{3, r.Intn(n)})
+				default:
+					ops = append(ops, []int{4, r.Intn(n), r.Intn(n)})
+				}
+				continue
+			}
+			var out []int
+			for e := 0; e < n; e++ {
+				if !in(e) {
+					out = append(out, e)
+				}
+			}
+			switch {
+			case len(list) == 0:
+				e := r.Intn(n)
+				ops = append(ops, []int{0, e})
+				list = []int{e}
+			case r.Chance(0.35) && len(out) > 0:
+				e2 := out[r.Intn(len(out))]
+				if r.Chance(0.25) {
+					ops = append(ops, []int{1, e2})
+					list = append([]int{e2}, list...)
+				} else {
+					i := r.Intn(len(list))
+					ops = append(ops, []int{2, list[i], e2})
+					list = append(list[:i+1], append([]int{e2}, list[i+1:]...)...)
+				}
+			case r.Chance(0.4) && len(list) >= 2:
+				i := r.Intn(len(list) - 1)
+				ops = append(ops, []int{4, list[i], list[i+1]})
+				list[i], list[i+1] = list[i+1], list[i]
+			default:
+				i := r.Intn(len(list))
+				ops = append(ops, []int{3, list[i]})
+				list = append(list[:i], list[i+1:]...)
+			}
+		}
+		var sb strings.Builder
+		fmt.Fprintf(&sb, "model aelptr %d", n)
+		for _, op := range ops {
+			for _, v := range op {
+				fmt.Fprintf(&sb, " %d", v)
+			}
+		}
+		var head int
+		var prev, next []int
+		if f := safeCall(func() { head, prev, next = clip.VAelPtrOps(n, ops) }); f != "" {
+			return sb.String(), "fault"
+		}
+		o := func(v int) string {
+			if v < 0 {
+				return "-"
+			}
+			return fmt.Sprint(v)
+		}
+		cells := make([]string, n)
+		for i := range cells {
+			cells[i] = o(prev[i]) + "/" + o(next[i])
+		}
+		got := fmt.Sprintf("head %s | %s", o(head), strings.Join(cells, " "))
+		if !garbage {
+			// legal sequences: the pointers must also spell the tracked list
+			walk := []int{}
+			for e, steps := head, 0; e >= 0 && steps <= n; e, steps = next[e], steps+1 {
+				walk = append(walk, e)
+			}
+			if fmt.Sprint(walk) != fmt.Sprint(append([]int{}, list...)) {
+				got += fmt.Sprintf(" | list %v but tracked %v", walk, list)
+			}
+		}
+		return sb.String(), got
 	case "offraw":
 		// the raw ring that doGroupOffset appends for one closed path (before the union): Miter / Square /
 		// Bevel joins, deltas of both signs from tiny to large, miter limits, paths with duplicates,
@@ -1017,7 +1117,7 @@ func corrProbe(r *Rng, which string) (line, got string) {
 }
 
 var genProbes = []string{"triSign", "multiplyUInt64", "productsAreEqual", "isCollinear", "CrossProduct", "dotProduct64", "segsIntersect", "checkPrecision", "IsOdd", "ptsReallyClose", "isContributingClosed", "isContributingOpen", "getLocation", "getEdgesForPt", "isHeadingClockwise", "headingClockwise", "getAdjacentLocation", "areOpposites", "hasHorzOverlap", "hasVertOverlap", "isClockwise", "getSegmentIntersection", "getSegmentIntersectPt", "rectMethods", "getBounds", "GetBounds64", "Area64", "PerpendicDistFromLineSqr64", "PerpendicDistFromLineSqrD", "areaTriangle"}
-var modelProbes = []string{"offplan", "rectpoly", "rectline", "pipop", "scan", "lowest", "trim", "simp64", "pip", "strip", "mink", "vertex", "clean", "build", "tree", "tree", "areaop", "contain", "aelins", "ixlist", "ring", "offraw", "offopen", "split", "buildpaths", "split", "buildpaths"}
+var modelProbes = []string{"offplan", "rectpoly", "rectline", "pipop", "scan", "lowest", "trim", "simp64", "pip", "strip", "mink", "vertex", "clean", "build", "tree", "tree", "areaop", "contain", "aelins", "ixlist", "ring", "aelptr", "offraw", "offopen", "split", "buildpaths", "split", "buildpaths"}
 
 func corrStage(name string, probes []string, quick, thorough int, rule string) {
 	stages[name] = func(ctx *Ctx, cnt func(q, t int) int, replay string) Result {
@@ -1049,5 +1149,5 @@ func corrStage(name string, probes []string, quick, thorough int, rule string) {
 func init() {
 	corrStage("gen-corr", genProbes, 60000, 3000000, "translator validation: every generated function (Gen.*) is evaluated by the Lean oracle on operand-value inputs and compared with the real function called in-process (sign only for float64 cross / dot products, bit patterns for Area64, areaTriangle, PerpendicDistFromLineSqr64 and PerpendicDistFromLineSqrD, the last on float operands up to 2^29 with segments up to 2^28 long); non-trivial = any probe with a non-empty argument list")
 	corrStage("wind-corr", []string{"windc", "windx", "windd", "windc", "windd", "windopen"}, 60000, 2500000, "correspondence of the winding-count bookkeeping model (Model.Wind) with the real setWindCountForClosedPathEdge / setWindCountForOpenPathEdge / intersectEdges (counts, hotness afterwards and output records created, for hot / cold / front / back / shared-record combinations) run on synthetic active-edge lists (verif hook): 0-5 edges left of the new edge, subject / clip / open edges, all four fill rules, counts either produced by the real insertion (consistent states) or arbitrary in -3..3; resulting counts compared exactly")
-	corrStage("models-corr", modelProbes, 230000, 6000000, "function-level correspondence of the hand models (TrimCollinear64, SimplifyPath64, PointInPolygon, StripDuplicates, minkowskiInternal, addPathsToVertexList [vertex ring, flags, local minima], cleanCollinear's removal loop and buildPath on synthetic output rings, fixSelfIntersects / doSplitOp on rings whose next-but-one edges cross [remaining ring, dropped rings, created records], buildPaths on 1-3 synthetic records [the whole post-sweep pipeline incl. records appended while the loop runs], buildTree on synthetic tables of output records with nested / disjoint rectangles, arbitrary owner links and splits lists, pointInOpPolygon, path1InsidePath2 / getCleanPath on synthetic rings and the exported Path2ContainsPath1, isValidAelOrder / insertLeftEdge on synthetic active-edge lists (0-5 residents, shared bottom points, equal x, collinear edges, joined pairs), buildIntersectList / processIntersectList on 0-7 synthetic edges spanning a scanbeam [x at the top, intersect nodes in emission order with their points, sorted edge list, processing order, AEL afterwards], the ring-assembly functions addLocalMinPoly / addOutPt / addLocalMaxPoly / joinOutrecPaths / swapOutrecs / setOwner on 2-6 synthetic edges and 1-14 operations [every edge's record, every record's ring, front / back edge and owner, faults], areaOP on synthetic rings at magnitudes up to 2^40 (float bit patterns), Group.GetLowestPathInfo, insertScanline / popScanline, RectClipLinesPaths64 [whole line machine] the raw rings of RectClip64.executeInternal [polygon state machine before checkEdges], the raw offset rings of one closed path and of one open path (Joined: both directions; capped: the walk whose caps are never built) [getUnitNormal, buildNormals, offsetPolygon, offsetPoint, doMiter / doSquare / doBevel and their float helpers, bit for bit, edges up to 2^35 long], and the decision events of ClipperOffset.Execute64 [group delta, per-path dispatch, final union]): random paths of 0-8 vertices on 2-4 wide grids (forcing duplicates, collinear runs, wrap-around cases) at three magnitudes; outputs compared exactly")
+	corrStage("models-corr", modelProbes, 230000, 6000000, "function-level correspondence of the hand models (TrimCollinear64, SimplifyPath64, PointInPolygon, StripDuplicates, minkowskiInternal, addPathsToVertexList [vertex ring, flags, local minima], cleanCollinear's removal loop and buildPath on synthetic output rings, fixSelfIntersects / doSplitOp on rings whose next-but-one edges cross [remaining ring, dropped rings, created records], buildPaths on 1-3 synthetic records [the whole post-sweep pipeline incl. records appended while the loop runs], buildTree on synthetic tables of output records with nested / disjoint rectangles, arbitrary owner links and splits lists, pointInOpPolygon, path1InsidePath2 / getCleanPath on synthetic rings and the exported Path2ContainsPath1, isValidAelOrder / insertLeftEdge on synthetic active-edge lists (0-5 residents, shared bottom points, equal x, collinear edges, joined pairs), buildIntersectList / processIntersectList on 0-7 synthetic edges spanning a scanbeam [x at the top, intersect nodes in emission order with their points, sorted edge list, processing order, AEL afterwards], the pointer surgery of insertLeftEdge (front cases) / insertRightEdge / deleteFromAEL / swapPositionsInAEL on 2-7 synthetic edges and 1-16 operations [c.actives and both AEL pointers of every edge; on legal sequences also the list they spell], the ring-assembly functions addLocalMinPoly / addOutPt / addLocalMaxPoly / joinOutrecPaths / swapOutrecs / setOwner on 2-6 synthetic edges and 1-14 operations [every edge's record, every record's ring, front / back edge and owner, faults], areaOP on synthetic rings at magnitudes up to 2^40 (float bit patterns), Group.GetLowestPathInfo, insertScanline / popScanline, RectClipLinesPaths64 [whole line machine] the raw rings of RectClip64.executeInternal [polygon state machine before checkEdges], the raw offset rings of one closed path and of one open path (Joined: both directions; capped: the walk whose caps are never built) [getUnitNormal, buildNormals, offsetPolygon, offsetPoint, doMiter / doSquare / doBevel and their float helpers, bit for bit, edges up to 2^35 long], and the decision events of ClipperOffset.Execute64 [group delta, per-path dispatch, final union]): random paths of 0-8 vertices on 2-4 wide grids (forcing duplicates, collinear runs, wrap-around cases) at three magnitudes; outputs compared exactly")
 }
